@@ -20,8 +20,10 @@ None == "None"
 \* dep: one HTMLDependency object displayed every time; depeq: an equal but distinct dependency each time;
 \* false (False), zerof (0.0), emptyhtml (HTML("")): falsy but valid; emptydict ({}), emptyset (set()): falsy and unsupported
 Vals == {"str", "num", "zero", "empty", "none", "dots", "repr", "tag", "tfy", "list", "bad", "badlist",
-         "dep", "depeq", "false", "zerof", "emptyhtml", "emptydict", "emptyset", "reprtuple", "reprstr"}
-BadVals == {"bad", "badlist", "emptydict", "emptyset"}
+         "dep", "depeq", "false", "zerof", "emptyhtml", "emptydict", "emptyset", "reprtuple", "reprstr",
+         "fraction", "decimal", "complex"}
+\* (numbers that are not int / float - Fraction, Decimal, complex - are not valid children)
+BadVals == {"bad", "badlist", "emptydict", "emptyset", "fraction", "decimal", "complex"}
 
 \* what append(value) stores, after the wrapper's case analysis (wrap_displayhook_handler)
 Stored(v) ==
